@@ -5,7 +5,7 @@ Y1970 = 0
 Y2100 = 4_102_444_800_000_000
 DAY = 86_400_000_000
 
-_WORDS = ["a", "b", "c", "x", "afk", "not-afk", "título", "日本語", 'q"uote', "it's", "back\\slash", "tab\there", "", " ", "🙂", "é"]
+_WORDS = ["a", "b", "c", "x", "afk", "not-afk", "título", "日本語", 'q"uote', "it's", "back\\slash", "tab\there", "", " ", "🙂", "é", "cut mid-emoji \ud83d", "007", "cafe\u0301"]
 _KEYS = ["app", "title", "status", "url", "k", "ключ", "a b", "$x", "nested", "n"]
 
 
@@ -13,7 +13,8 @@ def lattice(r):
     """A per-run time lattice: coarse lattices make ties of instants likely."""
     step = r.choice([1_000, 250_000, 1_000_000, 1_000_000, 5_000_000, 60_000_000])
     n = r.choice([3, 6, 12, 40, 400])
-    return {"base": BASE_US + r.randrange(0, 1000) * 1_000_000, "step": step, "n": n}
+    base = BASE_US + r.randrange(0, 1000) * 1_000_000
+    return {"base": base, "step": step, "n": n}
 
 
 def lat_ts(r, lat):
@@ -117,14 +118,14 @@ def meta(r, wild=True):
     }
     c = r.random()
     if c < 0.5:
-        m["name"] = r.choice(["A name", "nämé", "n", "bucket name with spaces"])
+        m["name"] = r.choice(["A name", "nämé", "n", "bucket name with spaces", "007", "2021", "1e3"])
     if r.random() < 0.5:
         m["data"] = {r.choice(_KEYS): json_value(r, 1) for _ in range(r.randrange(1, 3))}
     return m
 
 
 BUCKET_IDS = ["b0", "b1", "b2", "b3"]
-UNICODE_BUCKET_IDS = ["aw-watcher-window_höst", "b/ü", "б2", "b 3"]
+UNICODE_BUCKET_IDS = ["aw-watcher-window_höst", "b/ü", "б2", "cafe\u0301 b 3"]  # the last one is not NFC-normalised
 CASE_BUCKET_IDS = ["aw-watcher-afk_Laptop", "aw-watcher-afk_laptop", "AW-WATCHER-AFK_LAPTOP", "b0"]  # differ only in case
 
 
